@@ -59,7 +59,14 @@ def install_monitors():
                 cur = p.current_price if p is not None else None
             except Exception:
                 cur = None
-            info = {'created_time': store.app.time, 'price_at_submit': cur, 'accepted': False,
+            sp = None
+            try:
+                if p is not None and p.strategy is not None:
+                    sp = p.strategy.price
+            except Exception:
+                sp = None
+            info = {'created_time': store.app.time, 'price_at_submit': cur, 'strategy_price': sp, 'accepted': False,
+                    'pos_type': (p.type if p is not None else None), 'n_hooks': len(rec.hooks),
                     'seq': len(rec.orders), 'created_in_minute': len(rec.minutes) if rec.refs.get('in_minute') else None}
             rec.order_info[id(self)] = info
             rec.orders.append(self)
@@ -272,16 +279,20 @@ def make_template(side='long', entry=None, stop=None, take=None, qty=1.0, on_ope
             rec = REC
             if rec is not None:
                 kw['snap'] = snapshot(self)
+                kw['n_events'] = len(rec.events)
                 if record_candles:
                     kw['candles'] = self.candles
                 rec.hooks.append((self.time, hook, kw))
 
         def before(self):
-            self._rec('before', index=self.index)
+            self._rec('before', index=self.index, active=[o for o in self.orders_active()],
+                      is_open=self.position.is_open)
 
         def after(self):
+            cp = lambda a: None if a is None else [tuple(r) for r in a]
             self._rec('after', index=self.index,
-                      active=[o for o in self.orders_active()])
+                      active=[o for o in self.orders_active()], is_open=self.position.is_open,
+                      sl=cp(self._stop_loss), tp=cp(self._take_profit), ptype=self.position.type)
 
         def orders_active(self):
             from jesse.store import store
